@@ -41,7 +41,7 @@ class Evaluator:
     def __init__(self, exe):
         self.p = subprocess.Popen([exe, 'eval'], stdin=subprocess.PIPE, stdout=subprocess.PIPE, text=True, bufsize=1 << 20)
 
-    def batch(self, queries, chunk=100):
+    def batch(self, queries, chunk=100, raw=False):
         """queries: list of (id, num, [values as float or str]) -> list of result lists (python floats via hex).
         Written in chunks so that neither pipe can fill up while the other side is blocked."""
         out = []
@@ -58,7 +58,7 @@ class Evaluator:
             for _ in qs:
                 parts = self.p.stdout.readline().split()
                 n = int(parts[1])
-                out.append(None if n < 0 else [hexf(x) for x in parts[2:2 + n]])
+                out.append(None if n < 0 else [(x if raw else hexf(x)) for x in parts[2:2 + n]])
         return out
 
     def close(self):
